@@ -257,6 +257,7 @@ func run(c *mc.Ctx) {
 	e.flipChecks()
 	e.decoderChecks()
 	e.batchChecks()
+	e.reuseChecks()
 	for _, r := range e.requires {
 		c.Require(r.class, r.min)
 	}
